@@ -23,7 +23,7 @@ RULE = (
     "(classical_qsvd_full | classical_qsvd R=1..min(m,n)); non-trivial = rank >= 1; distinct = sha1(input bytes, entry, R)"
 )
 BOUNDS = {
-    "quick": "m,n<=4, all 2^(p-1)-type compositions for every rank 0..p, values {4,2,1,1/2}, factors id/monomial/Householder, R=1..p; exhaustive small-integer cells: all 2x2 over {0,1,-1,i,j,k}, 3x3 over {-1,0,1} (every 4th), 2x3/3x2 over {0,1,i,j} (every 4th)",
+    "quick": "m,n<=4, all 2^(p-1)-type compositions for every rank 0..p, values {4,2,1,1/2}, factors id/monomial/Householder, R=1..p; exhaustive small-integer cells: all 2x2 over {0,1,-1,i,j,k}, 3x3 over {-1,0,1} (every 4th), 2x3/3x2 over {0,1,i,j} (every 4th); steep spectra (s_2/s_1 in {2^-10,1.05e-5,2^-20,1e-4}) on 12x8, 8x12, 9x9, 16x8, 20x12 with R=1..3; xf tinysub / linedep variants",
     "thorough": "m,n<=6, values {4,2,1,1/2,1/4}, 3 fill rows; exhaustive small-integer cells in full (2x2 over {0,1,-1,i,j,k}, 3x3 over {-1,0,1}, 2x3/3x2 over {0,1,i,j}) and 3x3 over {-1,0,1,2} (every 16th)",
 }
 THOROUGH_STREAMS = 8
